@@ -302,3 +302,46 @@ func genMetricCtx(r *rand.Rand) Ctx {
 	return Ctx{FromNs: from, ToNs: from + int64(1+r.Intn(7200))*1e9, Limit: []int64{0, 100}[r.Intn(2)], Asc: r.Intn(2) == 0,
 		Cluster: r.Intn(4) == 0, Type: []uint8{0, 1, 1, 2}[r.Intn(4)], Finalize: r.Intn(5) != 0, StepMs: step}
 }
+
+// ---------------------------------------------------------------- facts of the parsed script
+
+// Facts names, from the parse tree, the range function, its range, whether it aggregates an unwrapped value, and the
+// vector operator: the inputs of the specification oracle that judges the implementation's SQL fragments.
+type Facts struct {
+	LraFn     string `json:"lra_fn,omitempty"`
+	DurNs     int64  `json:"dur_ns,omitempty"`
+	Unwrapped bool   `json:"unwrapped,omitempty"`
+	AggFn     string `json:"agg_fn,omitempty"`
+	Quantile  bool   `json:"quantile,omitempty"`
+}
+
+func scriptFacts(s *logql_parser.LogQLScript) *Facts {
+	f := &Facts{}
+	var lra *logql_parser.LRAOrUnwrap
+	agg := s.AggOperator
+	switch {
+	case s.LRAOrUnwrap != nil:
+		lra = s.LRAOrUnwrap
+	case s.TopK != nil:
+		lra = s.TopK.LRAOrUnwrap
+		if s.TopK.AggOperator != nil {
+			agg = s.TopK.AggOperator
+		}
+		f.Quantile = s.TopK.QuantileOverTime != nil
+	case s.QuantileOverTime != nil:
+		f.Quantile = true
+	}
+	if agg != nil {
+		f.AggFn = agg.Fn
+		lra = &agg.LRAOrUnwrap
+	}
+	if lra != nil {
+		f.LraFn = lra.Fn
+		if d, err := time.ParseDuration(lra.Time + lra.TimeUnit); err == nil {
+			f.DurNs = d.Nanoseconds()
+		}
+		n := len(lra.StrSel.Pipelines)
+		f.Unwrapped = n > 0 && lra.StrSel.Pipelines[n-1].Unwrap != nil
+	}
+	return f
+}
